@@ -221,10 +221,10 @@ func parseResps(s string) []verifhooks.Resp {
 }
 
 func implMerge(args []string) string {
-	if len(args) != 1 {
+	if len(args) != 2 {
 		return "bad-op"
 	}
-	out, p := verifhooks.Merge(parseResps(args[0]))
+	out, p := verifhooks.Merge(parseResps(args[1]))
 	if p != nil {
 		return "panic"
 	}
@@ -325,6 +325,7 @@ func genFlush(r *Rng, n int, w io.Writer, st *Stats) {
 func genMerge(r *Rng, n int, w io.Writer, st *Stats) {
 	for i := 0; i < n; i++ {
 		count := r.Intn(6)
+		n0 := count
 		recent := 0
 		length := Pick(r, []int{0, 1, 2, 3, 5, 8, 12, 20})
 		garbage := r.Chance(1, 6) // unconstrained stream (may be inexplicable; Merge may panic)
@@ -380,7 +381,7 @@ func genMerge(r *Rng, n int, w io.Writer, st *Stats) {
 		if len(rs) > 0 {
 			s = strings.Join(rs, ";")
 		}
-		fmt.Fprintf(w, "merge %s\n", s)
+		fmt.Fprintf(w, "merge %d %s\n", n0, s)
 	}
 }
 
